@@ -1019,7 +1019,7 @@ class Fxp():
                 if self.n_frac == 0:
                     val = raw_val
                 else:
-                    val = raw_val // self._get_conv_factor()
+                    val = np.asarray(raw_val // self._get_conv_factor())    # (a single element when `item` is given)
                     val = np.array(list(map(int, val.flatten()))).reshape(val.shape)
                 
             elif dtype == complex or np.issubdtype(dtype, np.complexfloating):
